@@ -665,9 +665,7 @@ Proof.
 Qed.
 
 (* ---- from the boolean domain to the hypotheses of the parser lemmas ---- *)
-Lemma no_crlf_cr l : no_crlf l = true -> ~ In CR l.
-Proof. intros H Hi. pose proof (forallb_In _ _ _ H Hi) as C. discriminate C. Qed.
-Lemma no_crlf_lf l : no_crlf l = true -> ~ In LF l.
+Lemma no_cr_cr l : no_cr l = true -> ~ In CR l.
 Proof. intros H Hi. pose proof (forallb_In _ _ _ H Hi) as C. discriminate C. Qed.
 Lemma no_sp_sp l : no_sp l = true -> ~ In SP l.
 Proof. intros H Hi. pose proof (forallb_In _ _ _ H Hi) as C. discriminate C. Qed.
@@ -689,8 +687,8 @@ Proof.
   - now apply stripped_strip.
   - now apply stripped_strip.
   - intros Hi. pose proof (forallb_In _ _ _ Hn3 Hi) as C. discriminate C.
-  - now apply no_crlf_cr.
-  - now apply no_crlf_cr.
+  - now apply no_cr_cr.
+  - now apply no_cr_cr.
 Qed.
 
 Definition lift1 (kv : bytes * bytes) : bytes * (bytes * bytes) := (lower (fst kv), (fst kv, snd kv)).
@@ -724,10 +722,10 @@ Definition framing_rel (hs : bdict) (wire decoded : bytes) : Prop :=
             end
   end.
 
-Lemma others_ok (h : bdict) : forallb ok_header h = true ->
+Lemma others_ok (h : bdict) : Forall hdr_ok h ->
   ~ In CONTENT_LENGTH (lkeys h) -> ~ In TRANSFER_ENCODING (lkeys h) -> Forall other_ok h.
 Proof.
-  intros H N1 N2. apply Forall_forall. intros kv Hi. split; [apply ok_header_hdr_ok, (forallb_In _ _ _ H Hi)|].
+  intros H N1 N2. apply Forall_forall. intros kv Hi. split; [rewrite Forall_forall in H; now apply H|].
   split; intros C; [apply N1|apply N2]; rewrite <- C; unfold lkeys; apply in_map_iff; exists kv; now split.
 Qed.
 
@@ -737,8 +735,16 @@ Proof. rewrite forallb_app. apply andb_true_iff. Qed.
 Lemma lkeys_app a b : lkeys (a ++ b) = lkeys a ++ lkeys b.
 Proof. unfold lkeys. apply map_app. Qed.
 
+(* the same, with the parser-side (Prop) header conditions of Http/ParserFacts.v *)
+Definition wfhP (h : bdict) : Prop := Forall hdr_ok h /\ NoDup (lkeys h).
+Lemma wfh_wfhP h : wfh h -> wfhP h.
+Proof.
+  intros [H1 H2]. split; [|exact H2]. apply Forall_forall. intros kv Hi.
+  apply ok_header_hdr_ok. exact (forallb_In _ _ _ H1 Hi).
+Qed.
+
 (* every framed header map + body is a message of Http/ParserFacts.v *)
-Lemma to_message sl hs wire decoded : wfh hs -> framing_rel hs wire decoded ->
+Lemma to_message sl hs wire decoded : wfhP hs -> framing_rel hs wire decoded ->
   exists m, m_start m = sl /\ all_hdrs m = hs /\ framing_bytes (m_framing m) = wire /\
             Forall other_ok (m_hs1 m) /\ ParserFacts.framing_ok (m_framing m) /\ Forall other_ok (m_hs2 m) /\
             match m_framing m with
@@ -752,7 +758,7 @@ Proof.
   - destruct Hf as (Hte & Hcl & s & Ws & -> & ->).
     destruct (split_at_ci _ _ _ Hnd TE) as (h1 & hn & h2 & -> & E1 & N1 & N2).
     apply get_ci_none in Hcl. rewrite lkeys_app in Hcl. cbn [lkeys map fst] in Hcl. fold (lkeys h2) in Hcl.
-    apply forallb_app_inv in Hok as [Ho1 Ho2]. cbn [forallb] in Ho2. apply andb_true_iff in Ho2 as [Hoh Ho2].
+    apply Forall_app in Hok as [Ho1 Ho2]. inversion Ho2 as [|? ? Hoh Ho2']; subst. clear Ho2. rename Ho2' into Ho2.
     exists {| m_start := sl; m_hs1 := h1; m_framing := FChunked hn te (stream_of s); m_hs2 := h2 |}.
     cbn [m_start m_hs1 m_framing m_hs2 framing_bytes].
     refine (conj _ (conj _ (conj _ (conj _ (conj _ (conj _ _)))))).
@@ -761,14 +767,14 @@ Proof.
     + apply render_stream_of.
     + apply others_ok; [exact Ho1| |exact N1]. intros C. apply Hcl. apply in_or_app. now left.
     + cbn [ParserFacts.framing_ok]. refine (conj _ (conj _ (conj _ _)));
-        [now apply ok_header_hdr_ok|exact E1|exact Hte|now apply wf_chunked_stream_ok].
+        [exact Hoh|exact E1|exact Hte|now apply wf_chunked_stream_ok].
     + apply others_ok; [exact Ho2| |exact N2]. intros C. apply Hcl. apply in_or_app. right. now right.
     + split; [symmetry; apply stream_body_of|congruence].
   - destruct (get_ci CONTENT_LENGTH hs) as [cl|] eqn:CL.
     + destruct Hf as (Hi & ->).
       destruct (split_at_ci _ _ _ Hnd CL) as (h1 & hn & h2 & -> & E1 & N1 & N2).
       apply get_ci_none in TE. rewrite lkeys_app in TE. cbn [lkeys map fst] in TE. fold (lkeys h2) in TE.
-      apply forallb_app_inv in Hok as [Ho1 Ho2]. cbn [forallb] in Ho2. apply andb_true_iff in Ho2 as [Hoh Ho2].
+      apply Forall_app in Hok as [Ho1 Ho2]. inversion Ho2 as [|? ? Hoh Ho2']; subst. clear Ho2. rename Ho2' into Ho2.
       exists {| m_start := sl; m_hs1 := h1; m_framing := FLength hn cl wire; m_hs2 := h2 |}.
       cbn [m_start m_hs1 m_framing m_hs2 framing_bytes].
     refine (conj _ (conj _ (conj _ (conj _ (conj _ (conj _ _)))))).
@@ -776,7 +782,7 @@ Proof.
       * reflexivity.
       * reflexivity.
       * apply others_ok; [exact Ho1|exact N1|]. intros C. apply TE. apply in_or_app. now left.
-      * cbn [ParserFacts.framing_ok]. refine (conj _ (conj _ _)); [now apply ok_header_hdr_ok|exact E1|exact Hi].
+      * cbn [ParserFacts.framing_ok]. refine (conj _ (conj _ _)); [exact Hoh|exact E1|exact Hi].
       * apply others_ok; [exact Ho2|exact N2|]. intros C. apply TE. apply in_or_app. right. now right.
       * split; reflexivity.
     + destruct Hf as (-> & ->). pose proof TE as TE0. apply get_ci_none in TE, CL.
@@ -807,7 +813,7 @@ Definition start_fields (sl : start_line) (p : parser) : Prop :=
 (* KEY LEMMA: a rendered start line + header map + framed body parses, in one piece, to a COMPLETE
    message with exactly these fields, and nothing is left over *)
 Lemma parse_rendered sl hs wire decoded :
-  start_ok DEFAULT_ALLOWED_URL_SCHEMES sl -> wfh hs -> framing_rel hs wire decoded ->
+  start_ok DEFAULT_ALLOWED_URL_SCHEMES sl -> wfhP hs -> framing_rel hs wire decoded ->
   exists p, parse (new_parser (sl_type sl)) (render_start sl ++ CRLF ++ render_hdrs hs ++ CRLF ++ wire) = Ok p /\
             state p = COMPLETE /\ buffer p = None /\ start_fields sl p /\
             headers p = lift_headers hs /\ bodyb p = decoded /\
@@ -882,7 +888,7 @@ Lemma all_digits_ok_value l : l <> [] -> all_digits l = true -> ok_value l = tru
 Proof.
   intros Hne Hd. unfold ok_value. apply andb_true_iff. split.
   - apply forallb_forall. intros x Hx. pose proof (is_digit_range _ (forallb_In _ _ _ Hd Hx)) as R.
-    unfold CR, LF. destruct (N.eqb_spec x 13); [lia|]. destruct (N.eqb_spec x 10); [lia|]. reflexivity.
+    unfold CR. destruct (N.eqb_spec x 13); [lia|]. reflexivity.
   - destruct l as [|x t]; [congruence|]. unfold stripped. apply andb_true_iff. split; apply negb_true_iff, digit_not_ws.
     + cbn [all_digits forallb] in Hd. now apply andb_true_iff in Hd as [? _].
     + apply (forallb_In _ _ _ Hd). destruct (exists_last (l := x :: t)) as (l' & y & E); [discriminate|].
@@ -965,7 +971,7 @@ Proof.
     rewrite request_headers_spec, header_lines_render, join_sp3, wire_or_empty.
     unfold sl, render_start. now rewrite <- !app_assoc. }
   assert (Hs : start_ok DEFAULT_ALLOWED_URL_SCHEMES sl).
-  { unfold sl, start_ok, tok. repeat split; auto using no_sp_sp, no_crlf_cr. }
+  { unfold sl, start_ok, tok. repeat split; auto using no_sp_sp, no_cr_cr. }
   pose proof (wf_arg_headers _ Hok Hnd) as W0.
   set (h0 := arg_headers (ra_headers a)) in *.
   set (h1 := match ra_ctype a with Some ct => put_ci H_CONTENT_TYPE ct h0 | None => h0 end).
@@ -996,7 +1002,7 @@ Proof.
       rewrite (has_key_ci_get TRANSFER_ENCODING h1), TE1, <- (has_key_ci_get TRANSFER_ENCODING h0).
       destruct (truthy (ra_body a)) eqn:T; cbn [andb]; [|exact CL1].
       destruct (has_key_ci TRANSFER_ENCODING h0); cbn [negb]; [exact CL1|reflexivity]. }
-  destruct (parse_rendered sl hs _ _ Hs Hw Hf) as (p & P & S1 & S2 & S3 & S4 & S5 & _).
+  destruct (parse_rendered sl hs _ _ Hs (wfh_wfhP _ Hw) Hf) as (p & P & S1 & S2 & S3 & S4 & S5 & _).
   exists p. rewrite Eb. split; [exact P|].
   unfold start_fields, sl in S3. destruct S3 as (F1 & F2 & F3 & F4 & F5 & _ & _).
   repeat apply conj; assumption.
@@ -1026,8 +1032,8 @@ Proof.
   match goal with H : args_framing_ok _ _ _ = true |- _ => rename H into Hfr end.
   match goal with H : nodup_ci _ = true |- _ => rename H into Hnd end.
   match goal with H : forallb ok_header _ = true |- _ => rename H into Hok end.
-  match goal with H : no_crlf (or_empty _) = true |- _ => rename H into Hrs end.
-  match goal with H : no_crlf (sa_version a) = true |- _ => rename H into Hv2 end.
+  match goal with H : no_cr (or_empty _) = true |- _ => rename H into Hrs end.
+  match goal with H : no_cr (sa_version a) = true |- _ => rename H into Hv2 end.
   rename W into Hv1.
   set (rs := if truthy (sa_reason a) then Some (or_empty (sa_reason a)) else None).
   set (sl := StatusLine (sa_version a) (dec_of_Z (sa_status a)) rs).
@@ -1039,8 +1045,8 @@ Proof.
     - rewrite join_sp3. now rewrite <- !app_assoc.
     - rewrite join_sp2. now rewrite <- !app_assoc. }
   assert (Hs : start_ok DEFAULT_ALLOWED_URL_SCHEMES sl).
-  { unfold sl, start_ok. split; [split; auto using no_sp_sp, no_crlf_cr|]. split; [apply dec_of_Z_tok|].
-    unfold rs. destruct (truthy (sa_reason a)); [now apply no_crlf_cr|exact I]. }
+  { unfold sl, start_ok. split; [split; auto using no_sp_sp, no_cr_cr|]. split; [apply dec_of_Z_tok|].
+    unfold rs. destruct (truthy (sa_reason a)); [now apply no_cr_cr|exact I]. }
   pose proof (wf_arg_headers _ Hok Hnd) as W0.
   set (h0 := arg_headers (sa_headers a)) in *.
   set (clv := if truthy (sa_body a) then dec_of_N (len (or_empty (sa_body a))) else [48]).
@@ -1061,7 +1067,7 @@ Proof.
       change (bytes_eqb CONTENT_LENGTH (lower H_CONNECTION)) with false.
       change (bytes_eqb CONTENT_LENGTH (lower H_CONTENT_LENGTH)) with true.
       rewrite andb_false_r, andb_true_r. rewrite (andb_comm (negb (sa_nocl a))). reflexivity. }
-  destruct (parse_rendered sl hs _ _ Hs Hw Hf) as (p & P & S1 & S2 & S3 & S4 & S5 & _).
+  destruct (parse_rendered sl hs _ _ Hs (wfh_wfhP _ Hw) Hf) as (p & P & S1 & S2 & S3 & S4 & S5 & _).
   exists p. rewrite Eb. split; [exact P|].
   unfold start_fields, sl in S3. destruct S3 as (F1 & F2 & F3 & _).
   repeat apply conj; try assumption.
@@ -1090,4 +1096,717 @@ Proof.
   destruct (truthy (sa_reason a)); cbn [app].
   - rewrite join_sp3. cbn [app]. repeat (rewrite <- app_assoc || rewrite <- app_comm_cons). reflexivity.
   - rewrite join_sp2. cbn [app]. repeat (rewrite <- app_assoc || rewrite <- app_comm_cons). reflexivity.
+Qed.
+
+(* ===================================================================================== *)
+(* parse, rebuild, parse again                                                            *)
+
+Lemma lkeys_map_fst hs : lkeys hs = map lower (map fst hs).
+Proof. unfold lkeys. now rewrite map_map. Qed.
+
+Lemma NoDup_names hs : NoDup (lkeys hs) -> NoDup (map fst hs).
+Proof. rewrite lkeys_map_fst. apply NoDup_map_inv. Qed.
+
+Lemma rebuilt_request_headers_lift hs : forall acc, NoDup (map fst acc ++ map fst hs) ->
+  rebuilt_request_headers [] None (map lift1 hs) acc = acc ++ hs.
+Proof.
+  induction hs as [|[k v] t IH]; intros acc H; cbn [map rebuilt_request_headers lift1 fst snd]; [now rewrite app_nil_r|].
+  cbn [mem_bytes]. rewrite dict_set_new.
+  - rewrite IH.
+    + now rewrite <- app_assoc.
+    + rewrite map_app. cbn [map fst]. rewrite <- app_assoc. exact H.
+  - unfold dict_keys. cbn [map fst] in H. intros C. apply NoDup_remove_2 in H. apply H. apply in_or_app. now left.
+Qed.
+
+Lemma rebuilt_response_headers_lift hs : forall acc, NoDup (map fst acc ++ map fst hs) ->
+  rebuilt_response_headers (map lift1 hs) acc = acc ++ hs.
+Proof.
+  induction hs as [|[k v] t IH]; intros acc H; cbn [map rebuilt_response_headers lift1 fst snd]; [now rewrite app_nil_r|].
+  rewrite IH.
+  - rewrite dict_set_new; [now rewrite <- app_assoc|].
+    unfold dict_keys. cbn [map fst] in H. intros C. apply NoDup_remove_2 in H. apply H. apply in_or_app. now left.
+  - assert (Hn : ~ In k (dict_keys acc)).
+    { unfold dict_keys. cbn [map fst] in H. intros C. apply NoDup_remove_2 in H. apply H. apply in_or_app. now left. }
+    rewrite dict_set_new by exact Hn. rewrite map_app. cbn [map fst]. rewrite <- app_assoc. exact H.
+Qed.
+
+(* the header map build() / build_response() hand to the builders *)
+Lemma rebuilt_headers_of p hs : headers p = lift_headers hs -> NoDup (lkeys hs) ->
+  match headers p with
+  | Some ((_ :: _) as h) => rebuilt_request_headers [] None h []
+  | _ => []
+  end = hs /\
+  match headers p with
+  | Some ((_ :: _) as h) => rebuilt_response_headers h []
+  | _ => []
+  end = hs.
+Proof.
+  intros E Hn. rewrite E. unfold lift_headers. destruct hs as [|kv t]; [split; reflexivity|].
+  fold (map lift1 (kv :: t)). cbn [map]. fold (map lift1 t).
+  change (lift1 kv :: map lift1 t) with (map lift1 (kv :: t)).
+  split.
+  - apply (rebuilt_request_headers_lift (kv :: t) []). cbn [map app]. exact (NoDup_names (kv :: t) Hn).
+  - apply (rebuilt_response_headers_lift (kv :: t) []). cbn [map app]. exact (NoDup_names (kv :: t) Hn).
+Qed.
+
+Definition path0 (p : parser) : bytes := if truthy (path p) then or_empty (path p) else [SLASH].
+
+Definition rebuilt_req_args (p : parser) (hs : bdict) (bd : option bytes) : req_args :=
+  {| ra_method := or_empty (method p); ra_url := path0 p; ra_version := or_empty (version p);
+     ra_ctype := None; ra_headers := Some hs; ra_body := bd; ra_close := false; ra_noua := true |}.
+
+Lemma build_as_builder ua p hs :
+  ty p = REQUEST_PARSER -> truthy (method p) = true -> truthy (version p) = true ->
+  headers p = lift_headers hs -> NoDup (lkeys hs) ->
+  build ua p [] false None =
+  do bd <- get_body_or_chunks p; Ok (build_request ua (rebuilt_req_args p hs bd)).
+Proof.
+  intros Ht Hm Hv Hh Hn. unfold build. rewrite Hm, Hv, Ht. cbn [is_request andb negb].
+  destruct (get_body_or_chunks p) as [bd|e]; cbn [bind]; [|reflexivity].
+  destruct (rebuilt_headers_of p hs Hh Hn) as [-> _]. reflexivity.
+Qed.
+
+Lemma put_ci_same name v h : get_ci (lower name) h = Some v -> put_ci name v h = h.
+Proof.
+  induction h as [|[k v0] t IH]; [discriminate|]. rewrite get_ci_cons. cbn [put_ci].
+  destruct (bytes_eqb (lower k) (lower name)).
+  - intros H. now inversion H.
+  - intros H. now rewrite IH.
+Qed.
+
+Lemma from_bytes_origin al t : match t with x :: _ => x <> SLASH | [] => True end ->
+  from_bytes al (SLASH :: t) =
+  Ok {| u_scheme := None; u_username := None; u_password := None; u_hostname := None; u_port := None;
+        u_remainder := Some (SLASH :: t) |}.
+Proof.
+  intros H. unfold from_bytes. rewrite N.eqb_refl. destruct t as [|x t']; [reflexivity|].
+  destruct (N.eqb_spec x SLASH); [contradiction|]. reflexivity.
+Qed.
+
+(* the part of a parsed request that must be well-behaved for build() to make sense *)
+Definition framing_consistent (p : parser) (hs : bdict) : Prop :=
+  match get_ci TRANSFER_ENCODING hs with
+  | Some te => lower te = CHUNKED /\ is_chunked_encoded p = true /\ get_ci CONTENT_LENGTH hs = None /\
+               body p <> None
+  | None => is_chunked_encoded p = false /\
+            match get_ci CONTENT_LENGTH hs with
+            | Some cl => if truthy (body p)
+                         then cl = dec_of_N (len (bodyb p)) /\ len_ok (bodyb p) = true
+                         else int10 cl = Ok 0%Z
+            | None => truthy (body p) = false
+            end
+  end.
+
+(* the framing of what get_body_or_chunks hands to the builder *)
+Lemma rebuilt_framing p hs : framing_consistent p hs ->
+  exists bd, get_body_or_chunks p = Ok bd /\
+    let hs' := cond_put (truthy bd && negb (has_key_ci TRANSFER_ENCODING hs)) H_CONTENT_LENGTH
+                        (dec_of_N (len (or_empty bd))) hs in
+    hs' = hs /\ framing_rel hs (or_empty bd) (bodyb p).
+Proof.
+  unfold framing_consistent, get_body_or_chunks, framing_rel. rewrite has_key_ci_get.
+  destruct (get_ci TRANSFER_ENCODING hs) as [te|] eqn:TE.
+  - intros (Hte & Hc & Hcl & Hb). rewrite Hc. destruct (body p) as [b|] eqn:B; [|congruence].
+    assert (Hk : 0 < DEFAULT_BUFFER_SIZE) by reflexivity.
+    rewrite (to_chunks_render b _ Hk). cbn [bind]. eexists. split; [reflexivity|]. cbv zeta.
+    rewrite andb_false_r. split; [reflexivity|]. split; [exact Hte|]. split; [exact Hcl|].
+    exists (chunks_of b DEFAULT_BUFFER_SIZE). cbn [or_empty]. repeat split.
+    + now apply chunks_of_wf.
+    + unfold bodyb. rewrite B. symmetry. now apply chunks_of_dechunk.
+  - intros (Hc & Hcl). rewrite Hc.
+    assert (E : match body p with Some b => Ok (Some b) | None => Ok None end = Ok (body p)) by (destruct (body p); reflexivity).
+    rewrite E. exists (body p). split; [reflexivity|]. cbv zeta. rewrite andb_true_r.
+    assert (Eb : or_empty (body p) = bodyb p) by reflexivity. rewrite Eb.
+    destruct (get_ci CONTENT_LENGTH hs) as [cl|] eqn:CL.
+    + destruct (truthy (body p)) eqn:T.
+      * destruct Hcl as [-> Hl]. cbn [cond_put]. split; [now apply put_ci_same|].
+        split; [|reflexivity]. rewrite int10_dec_of_N by (now apply Nat.leb_le). now rewrite len_Z.
+      * cbn [cond_put]. split; [reflexivity|].
+        assert (bodyb p = []) as -> by (unfold bodyb; destruct (body p) as [[|x t]|]; try discriminate; reflexivity).
+        split; [exact Hcl|reflexivity].
+    + rewrite Hcl. cbn [cond_put]. split; [reflexivity|].
+      assert (bodyb p = []) as -> by (unfold bodyb; destruct (body p) as [[|x t]|]; try discriminate; reflexivity).
+      split; reflexivity.
+Qed.
+
+Lemma truthy_some (o : option bytes) x : o = Some x -> x <> [] -> truthy o = true /\ or_empty o = x.
+Proof. intros -> H. destruct x; [congruence|]. split; reflexivity. Qed.
+
+(* C15_rebuild_stable, requests, on parser states *)
+Theorem rebuild_stable_request_state ua p m v hs :
+  ty p = REQUEST_PARSER ->
+  method p = Some m -> m <> [] -> tok m ->
+  version p = Some v -> v <> [] -> ~ In CR v ->
+  (truthy (path p) = false \/
+   exists t, path p = Some (SLASH :: t) /\ tok (SLASH :: t) /\ match t with x :: _ => x <> SLASH | [] => True end) ->
+  headers p = lift_headers hs -> wfhP hs -> framing_consistent p hs ->
+  exists raw p', build ua p [] false None = Ok raw /\
+    parse (new_parser REQUEST_PARSER) raw = Ok p' /\
+    state p' = COMPLETE /\ buffer p' = None /\
+    method p' = Some m /\ version p' = Some v /\ path p' = Some (path0 p) /\ host p' = None /\
+    headers p' = headers p /\ bodyb p' = bodyb p /\ is_chunked_encoded p' = is_chunked_encoded p.
+Proof.
+  intros Ht Hm Hm1 Hm2 Hv Hv1 Hv2 Hp Hh Hw Hf.
+  destruct (truthy_some _ _ Hm Hm1) as [Tm Em]. destruct (truthy_some _ _ Hv Hv1) as [Tv Ev].
+  rewrite (build_as_builder ua p hs Ht Tm Tv Hh (proj2 Hw)).
+  destruct (rebuilt_framing p hs Hf) as (bd & -> & Ehs & Hfr). cbn [bind]. cbv zeta in Ehs.
+  eexists. (* raw *)
+  assert (Hpath : exists t, path0 p = SLASH :: t /\ tok (SLASH :: t) /\ match t with x :: _ => x <> SLASH | [] => True end).
+  { unfold path0. destruct Hp as [Hp|(t & Hp & Hp1 & Hp2)].
+    - rewrite Hp. exists []. repeat split; intros [C|[]]; discriminate C.
+    - rewrite Hp. cbn [truthy or_empty]. exists t. repeat split; assumption || apply Hp1. }
+  destruct Hpath as (t & Ep & Tp & Sp).
+  set (u := {| u_scheme := None; u_username := None; u_password := None; u_hostname := None; u_port := None;
+               u_remainder := Some (SLASH :: t) |}).
+  set (sl := ReqLine m (SLASH :: t) v u).
+  assert (Eb : build_request ua (rebuilt_req_args p hs bd) =
+               render_start sl ++ CRLF ++ render_hdrs hs ++ CRLF ++ or_empty bd).
+  { unfold build_request, build_http_request, build_http_pkt, rebuilt_req_args.
+    cbn [ra_method ra_url ra_version ra_ctype ra_headers ra_body ra_close ra_noua].
+    pose proof (request_headers_spec ua (rebuilt_req_args p hs bd)) as S.
+    unfold rebuilt_req_args in S. cbn [ra_method ra_url ra_version ra_ctype ra_headers ra_body ra_close ra_noua] in S.
+    rewrite S. clear S.
+    pose proof (expected_request_headers_puts ua (rebuilt_req_args p hs bd)) as Pp. cbv zeta in Pp.
+    unfold rebuilt_req_args in Pp. cbn [ra_method ra_url ra_version ra_ctype ra_headers ra_body ra_close ra_noua arg_headers] in Pp.
+    rewrite Pp. clear Pp. rewrite andb_false_r. cbn [cond_put]. fold (cond_put (truthy bd && negb (has_key_ci TRANSFER_ENCODING hs)) H_CONTENT_LENGTH (dec_of_N (len (or_empty bd))) hs).
+    rewrite Ehs, header_lines_render, join_sp3, wire_or_empty, Em, Ev, Ep.
+    unfold sl, render_start. now rewrite <- !app_assoc. }
+  assert (Hs : start_ok DEFAULT_ALLOWED_URL_SCHEMES sl).
+  { unfold sl, start_ok. repeat split; try apply Hm2; try apply Tp; try assumption. now apply from_bytes_origin. }
+  destruct (parse_rendered sl hs _ _ Hs Hw Hfr) as (p' & P & S1 & S2 & S3 & S4 & S5 & S6).
+  exists p'. split; [reflexivity|]. rewrite Eb. split; [exact P|].
+  unfold start_fields, sl in S3. destruct S3 as (F1 & F2 & F3 & F4 & F5 & _ & _).
+  assert (Hla : (host p', port p', path p') = (None, Some (if bytes_eqb m CONNECT then 443%Z else 80%Z), Some (SLASH :: t)))
+    by (rewrite F5; reflexivity).
+  pose proof (f_equal snd Hla) as Hpa'. cbn [snd] in Hpa'.
+  pose proof (f_equal (fun x => fst (fst x)) Hla) as Hh'. cbn [fst] in Hh'.
+  repeat apply conj; try assumption.
+  - now rewrite Ep.
+  - now rewrite S4.
+  - rewrite S6. unfold framing_consistent in Hf. destruct (get_ci TRANSFER_ENCODING hs); [symmetry; apply Hf|symmetry; apply Hf].
+Qed.
+
+(* ---- responses ---- *)
+Lemma dict_has_lift k hs : dict_has k (map lift1 hs) = has_key_ci k hs.
+Proof.
+  unfold dict_has, has_key_ci. induction hs as [|[k0 v] t IH]; [reflexivity|].
+  cbn [map lift1 fst snd dict_get existsb].
+  destruct (bytes_eqb_spec k (lower k0)), (bytes_eqb_spec (lower k0) k); try congruence; try reflexivity.
+  exact IH.
+Qed.
+
+Lemma has_header_lift p hs key : headers p = lift_headers hs -> has_header p key = has_key_ci (lower key) hs.
+Proof.
+  intros E. unfold has_header. rewrite E. unfold lift_headers. destruct hs as [|kv t]; [reflexivity|].
+  apply (dict_has_lift (lower key) (kv :: t)).
+Qed.
+
+Definition framing_consistent_resp (p : parser) (hs : bdict) : Prop :=
+  match get_ci TRANSFER_ENCODING hs with
+  | Some te => lower te = CHUNKED /\ is_chunked_encoded p = true /\ get_ci CONTENT_LENGTH hs = None /\
+               body p <> None
+  | None => is_chunked_encoded p = false /\
+            match get_ci CONTENT_LENGTH hs with
+            | Some cl => if truthy (body p)
+                         then cl = dec_of_N (len (bodyb p)) /\ len_ok (bodyb p) = true
+                         else cl = [48]
+            | None => truthy (body p) = false
+            end
+  end.
+
+Lemma rebuilt_framing_resp p hs : headers p = lift_headers hs -> framing_consistent_resp p hs ->
+  exists bd, get_body_or_chunks p = Ok bd /\
+    let no_cl := negb (truthy (body p)) && negb (has_header p CONTENT_LENGTH) in
+    let hs' := cond_put (negb (has_key_ci TRANSFER_ENCODING hs) && negb no_cl) H_CONTENT_LENGTH
+                        (if truthy bd then dec_of_N (len (or_empty bd)) else [48]) hs in
+    hs' = hs /\ framing_rel hs (or_empty bd) (bodyb p).
+Proof.
+  intros Hh. unfold framing_consistent_resp, get_body_or_chunks, framing_rel.
+  rewrite (has_header_lift p hs _ Hh). change (lower CONTENT_LENGTH) with CONTENT_LENGTH.
+  rewrite !has_key_ci_get.
+  destruct (get_ci TRANSFER_ENCODING hs) as [te|] eqn:TE.
+  - intros (Hte & Hc & Hcl & Hb). rewrite Hc. destruct (body p) as [b|] eqn:B; [|congruence].
+    assert (Hk : 0 < DEFAULT_BUFFER_SIZE) by reflexivity.
+    rewrite (to_chunks_render b _ Hk). cbn [bind]. eexists. split; [reflexivity|]. cbv zeta.
+    cbn [negb andb cond_put]. split; [reflexivity|]. split; [exact Hte|]. split; [exact Hcl|].
+    exists (chunks_of b DEFAULT_BUFFER_SIZE). cbn [or_empty]. repeat split.
+    + now apply chunks_of_wf.
+    + unfold bodyb. rewrite B. symmetry. now apply chunks_of_dechunk.
+  - intros (Hc & Hcl). rewrite Hc.
+    assert (E : match body p with Some b => Ok (Some b) | None => Ok None end = Ok (body p)) by (destruct (body p); reflexivity).
+    rewrite E. exists (body p). split; [reflexivity|]. cbv zeta. cbn [negb andb].
+    assert (Eb : or_empty (body p) = bodyb p) by reflexivity. rewrite Eb.
+    destruct (get_ci CONTENT_LENGTH hs) as [cl|] eqn:CL.
+    + destruct (truthy (body p)) eqn:T; cbn [negb andb cond_put].
+      * destruct Hcl as [-> Hl]. split; [now apply put_ci_same|].
+        split; [|reflexivity]. rewrite int10_dec_of_N by (now apply Nat.leb_le). now rewrite len_Z.
+      * subst cl. split; [now apply put_ci_same|].
+        assert (bodyb p = []) as -> by (unfold bodyb; destruct (body p) as [[|x t]|]; try discriminate; reflexivity).
+        split; reflexivity.
+    + rewrite Hcl. cbn [negb andb cond_put]. split; [reflexivity|].
+      assert (bodyb p = []) as -> by (unfold bodyb; destruct (body p) as [[|x t]|]; try discriminate; reflexivity).
+      split; reflexivity.
+Qed.
+
+(* C15_rebuild_stable, responses, on parser states *)
+Theorem rebuild_stable_response_state p c z v hs :
+  ty p = RESPONSE_PARSER ->
+  code p = Some c -> c <> [] -> int10 c = Ok z -> dec_of_Z z = c ->
+  version p = Some v -> v <> [] -> tok v ->
+  ~ In CR (or_empty (reason p)) ->
+  headers p = lift_headers hs -> wfhP hs -> framing_consistent_resp p hs ->
+  exists raw p', build_response p = Ok raw /\
+    parse (new_parser RESPONSE_PARSER) raw = Ok p' /\
+    state p' = COMPLETE /\ buffer p' = None /\
+    version p' = Some v /\ code p' = Some c /\ or_empty (reason p') = or_empty (reason p) /\
+    headers p' = headers p /\ bodyb p' = bodyb p /\ is_chunked_encoded p' = is_chunked_encoded p.
+Proof.
+  intros Ht Hc Hc1 Hc2 Hc3 Hv Hv1 Hv2 Hr Hh Hw Hf.
+  destruct (truthy_some _ _ Hc Hc1) as [Tc Ec]. destruct (truthy_some _ _ Hv Hv1) as [Tv Ev].
+  unfold build_response. rewrite Tc, Tv, Ht. cbn [is_request negb andb]. rewrite Ec, Hc2. cbn [bind].
+  destruct (rebuilt_headers_of p hs Hh (proj2 Hw)) as [_ ->].
+  destruct (rebuilt_framing_resp p hs Hh Hf) as (bd & -> & Ehs & Hfr). cbn [bind]. cbv zeta in Ehs.
+  set (nocl := negb (truthy (body p)) && negb (has_header p CONTENT_LENGTH)) in *.
+  set (rs := if truthy (reason p) then Some (or_empty (reason p)) else None).
+  set (sl := StatusLine v c rs).
+  set (a := {| sa_status := z; sa_version := or_empty (version p); sa_reason := reason p; sa_headers := Some hs;
+              sa_body := bd; sa_close := false; sa_nocl := nocl |}).
+  assert (Eb : build_http_response z (or_empty (version p)) (reason p) (Some hs) bd false nocl =
+               render_start sl ++ CRLF ++ render_hdrs hs ++ CRLF ++ or_empty bd).
+  { change (build_http_response z (or_empty (version p)) (reason p) (Some hs) bd false nocl) with (build_response_of a).
+    unfold build_response_of, build_http_response, build_http_pkt.
+    rewrite (response_headers_spec a). unfold expected_response_headers, a.
+    cbn [sa_status sa_version sa_reason sa_headers sa_body sa_close sa_nocl arg_headers].
+    fold (cond_put (negb (has_key_ci TRANSFER_ENCODING hs) && negb nocl) H_CONTENT_LENGTH
+                   (if truthy bd then dec_of_N (len (or_empty bd)) else [48]) hs).
+    rewrite Ehs, header_lines_render, wire_or_empty, Ev.
+    unfold sl, rs, render_start, bytes_of_Z. rewrite Hc3. destruct (truthy (reason p)); cbn [app].
+    - rewrite join_sp3. now rewrite <- !app_assoc.
+    - rewrite join_sp2. now rewrite <- !app_assoc. }
+  assert (Hs : start_ok DEFAULT_ALLOWED_URL_SCHEMES sl).
+  { unfold sl, start_ok. split; [exact Hv2|]. split; [rewrite <- Hc3; apply dec_of_Z_tok|].
+    unfold rs. destruct (truthy (reason p)); [exact Hr|exact I]. }
+  destruct (parse_rendered sl hs _ _ Hs Hw Hfr) as (p' & P & S1 & S2 & S3 & S4 & S5 & S6).
+  exists (render_start sl ++ CRLF ++ render_hdrs hs ++ CRLF ++ or_empty bd), p'.
+  split; [f_equal; exact Eb|]. split; [exact P|].
+  unfold start_fields, sl in S3. destruct S3 as (F1 & F2 & F3 & _).
+  repeat apply conj; try assumption.
+  - rewrite F3. unfold rs. destruct (reason p) as [[|x t]|]; reflexivity.
+  - now rewrite S4.
+  - rewrite S6. unfold framing_consistent_resp in Hf. destruct (get_ci TRANSFER_ENCODING hs); symmetry; apply Hf.
+Qed.
+
+(* ---- the same for every well-formed message on the wire (abstract syntax of Http/ParserFacts.v) ---- *)
+Lemma get_ci_app ln a b :
+  get_ci ln (a ++ b) = match get_ci ln a with Some v => Some v | None => get_ci ln b end.
+Proof.
+  induction a as [|[k v] t IH]; [reflexivity|]. cbn [app]. rewrite !get_ci_cons.
+  destruct (bytes_eqb (lower k) ln); [reflexivity|exact IH].
+Qed.
+
+Lemma get_ci_others ln hs : Forall other_ok hs -> ln = CONTENT_LENGTH \/ ln = TRANSFER_ENCODING -> get_ci ln hs = None.
+Proof.
+  intros F Hl. apply get_ci_none. intros C. unfold lkeys in C. apply in_map_iff in C as (kv & E & Hi).
+  rewrite Forall_forall in F. destruct (F kv Hi) as (_ & N1 & N2). destruct Hl; subst; contradiction.
+Qed.
+
+Lemma all_hdrs_wfhP al msg : message_ok al msg -> NoDup (lkeys (all_hdrs msg)) -> wfhP (all_hdrs msg).
+Proof.
+  intros (_ & F1 & Ff & F2) Hn. split; [|exact Hn]. unfold all_hdrs.
+  apply Forall_app. split; [eapply Forall_impl; [|exact F1]; intros kv H; apply H|].
+  apply Forall_app. split; [|eapply Forall_impl; [|exact F2]; intros kv H; apply H].
+  destruct (m_framing msg); cbn [framing_hdrs ParserFacts.framing_ok] in *; [constructor| |];
+    (constructor; [apply Ff|constructor]).
+Qed.
+
+Lemma get_ci_all_hdrs msg ln al : message_ok al msg -> ln = CONTENT_LENGTH \/ ln = TRANSFER_ENCODING ->
+  get_ci ln (all_hdrs msg) = get_ci ln (framing_hdrs (m_framing msg)).
+Proof.
+  intros (_ & F1 & _ & F2) Hl. unfold all_hdrs. rewrite !get_ci_app.
+  rewrite (get_ci_others ln _ F1 Hl), (get_ci_others ln _ F2 Hl).
+  destruct (get_ci ln (framing_hdrs (m_framing msg))); reflexivity.
+Qed.
+
+Lemma expected_chunked msg tail :
+  is_chunked_encoded (expected msg tail) = match m_framing msg with FChunked _ _ _ => true | _ => false end.
+Proof.
+  unfold expected, final_of. destruct (m_framing msg) as [|hn hv [|b0 bd]|hn hv s]; reflexivity.
+Qed.
+
+Lemma expected_ty msg tail : ty (expected msg tail) = msg_type msg.
+Proof.
+  unfold expected, final_of. destruct (m_framing msg) as [|hn hv [|b0 bd]|hn hv s]; destruct (m_start msg); reflexivity.
+Qed.
+
+(* the Content-Length of the message is the canonical decimal of its body length (strict: also "0") *)
+Definition canonical_length (strict0 : bool) (msg : message) : Prop :=
+  match m_framing msg with
+  | FLength _ hv bd =>
+      match bd with
+      | [] => if strict0 then hv = [48] else True
+      | _ => hv = dec_of_N (len bd) /\ len_ok bd = true
+      end
+  | _ => True
+  end.
+
+Lemma lower_eq_get_ci hn hv ln : lower hn = ln -> get_ci ln [(hn, hv)] = Some hv.
+Proof. intros E. rewrite get_ci_cons, E, bytes_eqb_refl. reflexivity. Qed.
+Lemma lower_ne_get_ci hn hv ln : lower hn <> ln -> get_ci ln [(hn, hv)] = None.
+Proof. intros E. rewrite get_ci_cons. destruct (bytes_eqb_spec (lower hn) ln); [contradiction|reflexivity]. Qed.
+
+Lemma expected_framing_consistent al msg :
+  message_ok al msg -> canonical_length false msg ->
+  framing_consistent (expected msg []) (all_hdrs msg).
+Proof.
+  intros Hm Hc. unfold framing_consistent.
+  rewrite (get_ci_all_hdrs msg _ al Hm (or_intror eq_refl)), (get_ci_all_hdrs msg _ al Hm (or_introl eq_refl)).
+  rewrite expected_chunked. unfold bodyb. rewrite ParserFacts.expected_body.
+  destruct Hm as (_ & _ & Ff & _). unfold canonical_length in Hc.
+  destruct (m_framing msg) as [|hn hv bd|hn hv s]; cbn [framing_hdrs ParserFacts.framing_ok] in *.
+  - cbn. split; reflexivity.
+  - destruct Ff as (_ & E & Hi).
+    rewrite (lower_ne_get_ci hn hv TRANSFER_ENCODING) by (rewrite E; discriminate).
+    rewrite (lower_eq_get_ci hn hv _ E). split; [reflexivity|].
+    destruct bd as [|x t]; cbn [optb truthy]; [exact Hi|exact Hc].
+  - destruct Ff as (_ & E & E2 & _).
+    rewrite (lower_eq_get_ci hn hv _ E).
+    rewrite (lower_ne_get_ci hn hv CONTENT_LENGTH) by (rewrite E; discriminate).
+    repeat split; [exact E2|discriminate].
+Qed.
+
+Lemma expected_framing_consistent_resp al msg :
+  message_ok al msg -> canonical_length true msg ->
+  framing_consistent_resp (expected msg []) (all_hdrs msg).
+Proof.
+  intros Hm Hc. unfold framing_consistent_resp.
+  rewrite (get_ci_all_hdrs msg _ al Hm (or_intror eq_refl)), (get_ci_all_hdrs msg _ al Hm (or_introl eq_refl)).
+  rewrite expected_chunked. unfold bodyb. rewrite ParserFacts.expected_body.
+  destruct Hm as (_ & _ & Ff & _). unfold canonical_length in Hc.
+  destruct (m_framing msg) as [|hn hv bd|hn hv s]; cbn [framing_hdrs ParserFacts.framing_ok] in *.
+  - cbn. split; reflexivity.
+  - destruct Ff as (_ & E & Hi).
+    rewrite (lower_ne_get_ci hn hv TRANSFER_ENCODING) by (rewrite E; discriminate).
+    rewrite (lower_eq_get_ci hn hv _ E). split; [reflexivity|].
+    destruct bd as [|x t]; cbn [optb truthy]; exact Hc.
+  - destruct Ff as (_ & E & E2 & _).
+    rewrite (lower_eq_get_ci hn hv _ E).
+    rewrite (lower_ne_get_ci hn hv CONTENT_LENGTH) by (rewrite E; discriminate).
+    repeat split; [exact E2|discriminate].
+Qed.
+
+(* C15_rebuild_stable for requests: every well-formed request on the wire — any header spelling and
+   order, Content-Length or any chunk layout with extensions and trailers, the empty chunked body
+   included — parsed, rebuilt with build() and parsed again gives the same method, version, path,
+   header map (names as spelled, values, order), decoded body and framing *)
+Theorem rebuild_stable_request ua msg m t v u :
+  message_ok DEFAULT_ALLOWED_URL_SCHEMES msg -> m_start msg = ReqLine m t v u ->
+  NoDup (lkeys (all_hdrs msg)) -> m <> [] -> v <> [] ->
+  (u_remainder u = None \/ u_remainder u = Some [] \/
+   exists r, u_remainder u = Some (SLASH :: r) /\ tok (SLASH :: r) /\ match r with x :: _ => x <> SLASH | [] => True end) ->
+  canonical_length false msg ->
+  exists p raw p',
+    parse (new_parser REQUEST_PARSER) (render msg) = Ok p /\ state p = COMPLETE /\
+    build ua p [] false None = Ok raw /\
+    parse (new_parser REQUEST_PARSER) raw = Ok p' /\ state p' = COMPLETE /\ buffer p' = None /\
+    method p' = method p /\ version p' = version p /\ path p' = Some (path0 p) /\
+    headers p' = headers p /\ bodyb p' = bodyb p /\ is_chunked_encoded p' = is_chunked_encoded p.
+Proof.
+  intros Hm Hs Hn Hm1 Hv1 Hp Hc.
+  assert (Ht : tail_ok msg []) by (unfold tail_ok; destruct (m_start msg); destruct (m_framing msg); exact I || reflexivity).
+  pose proof (complete_at_end _ msg [] Hm Ht) as P. rewrite app_nil_r in P.
+  assert (Ety : msg_type msg = REQUEST_PARSER) by (unfold msg_type; now rewrite Hs).
+  rewrite Ety in P. set (p := expected msg []) in *.
+  destruct (expected_fields msg []) as (F1 & F2 & _ & F4 & F5 & F6). fold p in F1, F2, F4, F5, F6.
+  rewrite Hs in F6. cbv zeta in F6. destruct F6 as (G1 & G2 & G3 & G4 & G5 & _ & _).
+  assert (Hso : start_ok DEFAULT_ALLOWED_URL_SCHEMES (ReqLine m t v u)) by (rewrite <- Hs; apply Hm).
+  destruct Hso as (Tm & Tt & Tv & Hu).
+  assert (Hpath : path p = u_remainder u).
+  { pose proof (f_equal snd G5) as X. cbn [snd] in X. rewrite X. reflexivity. }
+  pose proof (all_hdrs_wfhP _ msg Hm Hn) as Hw.
+  assert (Hh : headers p = lift_headers (all_hdrs msg)) by (rewrite F4; apply add_all_lift, Hn).
+  destruct (rebuild_stable_request_state ua p m v (all_hdrs msg)) as (raw & p' & B & P' & R1 & R2 & R3 & R4 & R5 & _ & R7 & R8 & R9);
+    try assumption.
+  - unfold p. rewrite expected_ty. exact Ety.
+  - rewrite Hpath. destruct Hp as [Hp|[Hp|(r & Hp & Hp1 & Hp2)]]; rewrite Hp; [now left|now left|].
+    right. exists r. repeat split; assumption || apply Hp1.
+  - now apply (expected_framing_consistent DEFAULT_ALLOWED_URL_SCHEMES).
+  - exists p, raw, p'. repeat apply conj; try assumption; congruence.
+Qed.
+
+(* C15_rebuild_stable for responses (build_response) *)
+Theorem rebuild_stable_response msg v c rs z :
+  message_ok DEFAULT_ALLOWED_URL_SCHEMES msg -> m_start msg = StatusLine v c rs ->
+  NoDup (lkeys (all_hdrs msg)) -> v <> [] -> c <> [] ->
+  int10 c = Ok z -> dec_of_Z z = c ->
+  canonical_length true msg ->
+  exists p raw p',
+    parse (new_parser RESPONSE_PARSER) (render msg) = Ok p /\ state p = COMPLETE /\
+    build_response p = Ok raw /\
+    parse (new_parser RESPONSE_PARSER) raw = Ok p' /\ state p' = COMPLETE /\ buffer p' = None /\
+    version p' = version p /\ code p' = code p /\ or_empty (reason p') = or_empty (reason p) /\
+    headers p' = headers p /\ bodyb p' = bodyb p /\ is_chunked_encoded p' = is_chunked_encoded p.
+Proof.
+  intros Hm Hs Hn Hv1 Hc1 Hc2 Hc3 Hc.
+  assert (Ht : tail_ok msg []) by (unfold tail_ok; destruct (m_start msg); destruct (m_framing msg); exact I || reflexivity).
+  pose proof (complete_at_end _ msg [] Hm Ht) as P. rewrite app_nil_r in P.
+  assert (Ety : msg_type msg = RESPONSE_PARSER) by (unfold msg_type; now rewrite Hs).
+  rewrite Ety in P. set (p := expected msg []) in *.
+  destruct (expected_fields msg []) as (F1 & F2 & _ & F4 & F5 & F6). fold p in F1, F2, F4, F5, F6.
+  rewrite Hs in F6. cbv zeta in F6. destruct F6 as (G1 & G2 & G3 & _).
+  assert (Hso : start_ok DEFAULT_ALLOWED_URL_SCHEMES (StatusLine v c rs)) by (rewrite <- Hs; apply Hm).
+  destruct Hso as (Tv & Tc & Tr).
+  pose proof (all_hdrs_wfhP _ msg Hm Hn) as Hw.
+  assert (Hh : headers p = lift_headers (all_hdrs msg)) by (rewrite F4; apply add_all_lift, Hn).
+  destruct (rebuild_stable_response_state p c z v (all_hdrs msg)) as (raw & p' & B & P' & R1 & R2 & R3 & R4 & R5 & R6 & R7 & R8);
+    try assumption.
+  - unfold p. rewrite expected_ty. exact Ety.
+  - rewrite G3. destruct rs as [r|]; [exact Tr|intros []].
+  - now apply (expected_framing_consistent_resp DEFAULT_ALLOWED_URL_SCHEMES).
+  - exists p, raw, p'. repeat apply conj; try assumption; congruence.
+Qed.
+
+(* ===================================================================================== *)
+(* what the builders emit is well-formed for the RFC 7230-level recogniser                *)
+
+Lemma is_token_props k : is_token k = true ->
+  k <> [] /\ ~ In COLON k /\ ~ In SP k /\ ~ In LF k.
+Proof.
+  unfold is_token. intros H. apply andb_true_iff in H as [H1 H2]. split; [now apply nonempty_ne|].
+  repeat split; intros Hi; pose proof (forallb_In _ _ _ H2 Hi) as C; discriminate C.
+Qed.
+
+Lemma field_bytes_no_lf v : forallb is_field_byte v = true -> ~ In LF v.
+Proof. intros H Hi. pose proof (forallb_In _ _ _ H Hi) as C. discriminate C. Qed.
+
+Lemma ltrim_ows_noop l : match l with [] => True | x :: _ => is_ows x = false end -> ltrim_ows l = l.
+Proof. destruct l as [|x t]; intros H; [reflexivity|]. cbn [ltrim_ows]. now rewrite H. Qed.
+
+Lemma not_ws_not_ows x : is_ws x = false -> is_ows x = false.
+Proof. intros H. destruct (is_ows x) eqn:E; [|reflexivity]. apply is_ows_ws in E. congruence. Qed.
+
+Lemma trim_ows_sp_stripped v : stripped v = true -> trim_ows (SP :: v) = v.
+Proof.
+  intros H. unfold trim_ows. change (ltrim_ows (SP :: v)) with (ltrim_ows v).
+  destruct v as [|x t]; [reflexivity|].
+  unfold stripped in H. apply andb_true_iff in H as [H1 H2]. apply negb_true_iff in H1, H2.
+  rewrite (ltrim_ows_noop (x :: t)) by (now apply not_ws_not_ows).
+  destruct (exists_last (l := x :: t)) as (l' & y & E); [discriminate|]. rewrite E in *.
+  rewrite last_last in H2. rewrite rev_app_distr. cbn [rev app].
+  rewrite ltrim_ows_noop by (now apply not_ws_not_ows).
+  change (y :: rev l') with ([y] ++ rev l'). rewrite rev_app_distr, rev_involutive. reflexivity.
+Qed.
+
+Lemma rfc_header_line kv : rfc_header kv = true ->
+  parse_field_line (fst kv ++ COLON :: SP :: snd kv) = Some (fst kv, snd kv) /\
+  ~ In LF (fst kv ++ COLON :: SP :: snd kv) /\ fst kv ++ COLON :: SP :: snd kv <> [].
+Proof.
+  destruct kv as [k v]. unfold rfc_header, rfc_name, rfc_value. cbn [fst snd]. intros H.
+  apply andb_true_iff in H as [Hk Hv]. apply andb_true_iff in Hv as [Hv1 Hv2].
+  destruct (is_token_props k Hk) as (K1 & K2 & K3 & K4).
+  split; [|split].
+  - unfold parse_field_line. rewrite (split_once_byte_notin COLON k (SP :: v) K2).
+    rewrite Hk. cbn [forallb]. rewrite Hv1. cbn [andb is_field_byte].
+    change (is_field_byte SP) with true. cbn [andb]. now rewrite trim_ows_sp_stripped.
+  - intros Hi. apply in_app_or in Hi as [Hi|[Hi|[Hi|Hi]]]; try discriminate Hi; [now apply K4|].
+    now apply (field_bytes_no_lf v).
+  - intros C. apply app_eq_nil in C. destruct C as [_ C]. discriminate C.
+Qed.
+
+Lemma parse_fields_lines hs : forall f body, forallb rfc_header hs = true -> (length hs < f)%nat ->
+  parse_fields f (header_lines hs ++ CRLF ++ body) = Some (hs, body).
+Proof.
+  induction hs as [|[k v] t IH]; intros f body H Hf; (destruct f as [|f]; [cbn [length] in Hf; lia|]).
+  - cbn [header_lines app parse_fields]. change (13 :: 10 :: body) with (CRLF ++ body).
+    rewrite split_once_crlf_head. reflexivity.
+  - cbn [forallb] in H. apply andb_true_iff in H as [Hh Ht].
+    destruct (rfc_header_line (k, v) Hh) as (P1 & P2 & P3). cbn [fst snd] in P1, P2, P3.
+    cbn [header_lines parse_fields]. unfold build_http_header. cbn [app]. rewrite <- !app_assoc.
+    change (k ++ COLON :: SP :: v ++ CRLF ++ header_lines t ++ CRLF ++ body)
+      with (k ++ (COLON :: SP :: v) ++ CRLF ++ header_lines t ++ CRLF ++ body).
+    rewrite app_assoc. rewrite split_once_crlf_no_lf by exact P2.
+    rewrite P1, IH; [|exact Ht|cbn [length] in Hf; lia].
+    destruct (k ++ COLON :: SP :: v); [congruence|reflexivity].
+Qed.
+
+Lemma fields_named_nodup ln hs : NoDup (lkeys hs) ->
+  fields_named ln hs = match get_ci ln hs with Some v => [v] | None => [] end.
+Proof.
+  unfold fields_named. induction hs as [|[k v] t IH]; intros Hn; [reflexivity|].
+  cbn [lkeys map fst] in Hn. fold (lkeys t) in Hn. inversion Hn as [|? ? Hk Ht]; subst.
+  rewrite get_ci_cons. cbn [filter fst]. destruct (bytes_eqb_spec (lower k) ln) as [E|E].
+  - cbn [map snd]. rewrite IH by exact Ht. subst ln.
+    replace (get_ci (lower k) t) with (@None bytes); [reflexivity|]. symmetry. now apply get_ci_none.
+  - now apply IH.
+Qed.
+
+Lemma decval_digits l : forall a, fold_left (fun a x => a * 10 + (x - 48)) l a = digits_val_aux l a.
+Proof. induction l as [|x t IH]; intros a; [reflexivity|]. cbn [fold_left digits_val_aux]. apply IH. Qed.
+
+Lemma dec_of_N_rfc n : is_dec (dec_of_N n) = true /\ decval (dec_of_N n) = n.
+Proof.
+  destruct (dec_of_N_spec n) as (H1 & H2 & H3). split.
+  - unfold is_dec. unfold all_digits in H2. rewrite H2, andb_true_r. destruct (dec_of_N n); [congruence|reflexivity].
+  - unfold decval. rewrite decval_digits. exact H3.
+Qed.
+
+Lemma is_chunked_body_nil : is_chunked_body [] = false.
+Proof. reflexivity. Qed.
+
+(* framing of the final header map for the recogniser, from the rfc guard on the arguments *)
+Lemma rfc_framing_from_args h0 hs bd builder_cl allow_close is_req bodyless :
+  rfc_framing_args h0 bd builder_cl allow_close = true ->
+  NoDup (lkeys hs) ->
+  get_ci TRANSFER_ENCODING hs = get_ci TRANSFER_ENCODING h0 ->
+  get_ci CONTENT_LENGTH hs =
+    (if builder_cl && negb (has_key_ci TRANSFER_ENCODING h0)
+     then Some (if truthy bd then dec_of_N (len (or_empty bd)) else [48]) else get_ci CONTENT_LENGTH h0) ->
+  (allow_close = true -> is_req = false) ->
+  (bodyless = true -> truthy bd = false) ->
+  Grammar.framing_ok is_req bodyless hs (or_empty bd) = true.
+Proof.
+  intros Ha Hn Hte Hcl Hac Hbl. unfold Grammar.framing_ok. rewrite !fields_named_nodup by exact Hn.
+  rewrite Hte, Hcl. unfold rfc_framing_args in Ha. rewrite has_key_ci_get.
+  assert (Hempty : truthy bd = false -> or_empty bd = []) by (destruct bd as [[|x t]|]; try discriminate; reflexivity).
+  destruct (get_ci TRANSFER_ENCODING h0) as [te|] eqn:TE.
+  - rewrite andb_false_r. apply andb_true_iff in Ha as [Ha Hnc]. apply andb_true_iff in Ha as [Ha Hc].
+    apply negb_true_iff in Hnc. rewrite has_key_ci_get in Hnc.
+    destruct (get_ci CONTENT_LENGTH h0); [discriminate|]. rewrite Ha. cbn [andb].
+    destruct bodyless; [|exact Hc]. rewrite (Hempty (Hbl eq_refl)) in Hc. discriminate Hc.
+  - rewrite andb_true_r. destruct builder_cl.
+    + destruct (truthy bd) eqn:T.
+      * destruct (dec_of_N_rfc (len (or_empty bd))) as [D1 D2]. rewrite D1, D2, N.eqb_refl.
+        destruct bodyless; [specialize (Hbl eq_refl); congruence|reflexivity].
+      * rewrite (Hempty eq_refl). destruct bodyless; reflexivity.
+    + destruct (get_ci CONTENT_LENGTH h0) as [cl|].
+      * apply andb_true_iff in Ha as [Ha Hz]. apply andb_true_iff in Ha as [Hd He]. rewrite Hd. cbn [andb].
+        destruct bodyless; [|exact He]. rewrite (Hempty (Hbl eq_refl)). reflexivity.
+      * destruct (truthy bd) eqn:T.
+        -- rewrite orb_false_r in Ha. rewrite (Hac Ha). destruct bodyless; [specialize (Hbl eq_refl); congruence|reflexivity].
+        -- rewrite (Hempty eq_refl). destruct (is_req || bodyless); reflexivity.
+Qed.
+
+Lemma nodup_cond_put b name v h : NoDup (lkeys h) -> NoDup (lkeys (cond_put b name v h)).
+Proof.
+  intros H. destruct b; [|exact H]. cbn [cond_put]. rewrite lkeys_put_ci.
+  destruct (has_key_ci (lower name) h) eqn:E; [exact H|]. apply NoDup_snoc; [exact H|]. now apply has_key_ci_false.
+Qed.
+
+Lemma rfc_put_ci name v h : forallb rfc_header h = true -> rfc_name name = true -> rfc_value v = true ->
+  forallb rfc_header (put_ci name v h) = true.
+Proof.
+  intros H Hn Hv. induction h as [|[k v0] t IH]; cbn [put_ci forallb].
+  - unfold rfc_header. cbn [fst snd]. now rewrite Hn, Hv.
+  - cbn [forallb] in H. apply andb_true_iff in H as [Hk Ht].
+    destruct (bytes_eqb (lower k) (lower name)); cbn [forallb].
+    + rewrite Ht, andb_true_r. unfold rfc_header in *. cbn [fst snd] in *.
+      apply andb_true_iff in Hk as [Hk _]. now rewrite Hk, Hv.
+    + now rewrite Hk, IH.
+Qed.
+
+Lemma rfc_cond_put b name v h : forallb rfc_header h = true -> rfc_name name = true ->
+  (b = true -> rfc_value v = true) -> forallb rfc_header (cond_put b name v h) = true.
+Proof. intros H Hn Hv. destruct b; [apply rfc_put_ci; auto|exact H]. Qed.
+
+Lemma dec_rfc_value n : rfc_value (dec_of_N n) = true.
+Proof.
+  destruct (dec_of_N_spec n) as (H1 & H2 & _). unfold rfc_value. apply andb_true_iff. split.
+  - apply forallb_forall. intros x Hx. pose proof (is_digit_range _ (forallb_In _ _ _ H2 Hx)) as R.
+    unfold is_field_byte. destruct (N.eqb_spec x 0); [lia|]. destruct (N.leb_spec 10 x); destruct (N.leb_spec x 13); try reflexivity; lia.
+  - pose proof (all_digits_ok_value _ H1 H2) as O. unfold ok_value in O. now apply andb_true_iff in O as [_ ?].
+Qed.
+
+Lemma header_lines_length hs : (length hs <= length (header_lines hs))%nat.
+Proof.
+  induction hs as [|[k v] t IH]; [cbn; lia|]. cbn [header_lines length]. unfold build_http_header.
+  rewrite !app_length. cbn [length]. lia.
+Qed.
+
+Lemma is_http_version_inv v : is_http_version v = true ->
+  exists a c, v = HTTP_SLASH ++ [a; 46; c] /\ is_digit a = true /\ is_digit c = true.
+Proof.
+  unfold is_http_version. intros H. apply andb_true_iff in H as [H1 H2].
+  apply is_prefix_skipn in H1. change (length HTTP_SLASH) with 5%nat in H1.
+  destruct (skipn 5 v) as [|a [|d [|c [|e t]]]] eqn:E; try discriminate.
+  apply andb_true_iff in H2 as [H2 Hc]. apply andb_true_iff in H2 as [Ha Hd]. apply N.eqb_eq in Hd. subst d.
+  exists a, c. repeat split; assumption.
+Qed.
+
+Lemma is_http_version_chars v : is_http_version v = true -> ~ In LF v /\ ~ In SP v.
+Proof.
+  intros H. destruct (is_http_version_inv v H) as (a & c & -> & Ha & Hc).
+  apply is_digit_range in Ha, Hc. unfold LF, SP.
+  split; intros Hi; cbn in Hi; repeat (destruct Hi as [Hi|Hi]; [try discriminate Hi; lia|]); exact Hi.
+Qed.
+
+Lemma vchars_no_sp_lf t : forallb is_vchar t = true -> ~ In SP t /\ ~ In LF t.
+Proof. intros H. split; intros Hi; pose proof (forallb_In _ _ _ H Hi) as C; discriminate C. Qed.
+
+(* C15_build_wellformed, requests *)
+Theorem build_wellformed_request ua a :
+  rfc_req_args ua a = true -> wf_message REQUEST_PARSER (build_request ua a) = true.
+Proof.
+  intros W. unfold rfc_req_args in W.
+  apply andb_true_iff in W as [W Hfin]. apply andb_true_iff in W as [W Hua]. apply andb_true_iff in W as [W Hct].
+  apply andb_true_iff in W as [W Hnd]. apply andb_true_iff in W as [W Hok]. apply andb_true_iff in W as [W Hver].
+  apply andb_true_iff in W as [W Hurl]. apply andb_true_iff in W as [Hm Hune].
+  rewrite request_headers_spec in Hfin. apply andb_true_iff in Hfin as [Hfr Hhost].
+  set (hs := expected_request_headers ua a) in *.
+  set (h0 := arg_headers (ra_headers a)) in *.
+  set (h1 := match ra_ctype a with Some ct => put_ci H_CONTENT_TYPE ct h0 | None => h0 end).
+  pose proof (expected_request_headers_puts ua a) as Ep. cbv zeta in Ep. fold h0 h1 hs in Ep.
+  apply nodup_ci_NoDup in Hnd. fold h0 in Hnd.
+  assert (N1 : NoDup (lkeys h1)).
+  { unfold h1. destruct (ra_ctype a); [|exact Hnd]. apply (nodup_cond_put true). exact Hnd. }
+  assert (R1 : forallb rfc_header h1 = true).
+  { unfold h1. destruct (ra_ctype a); [|exact Hok]. apply rfc_put_ci; [exact Hok|reflexivity|exact Hct]. }
+  assert (Hn : NoDup (lkeys hs)) by (rewrite Ep; now repeat apply nodup_cond_put).
+  assert (Hr : forallb rfc_header hs = true).
+  { rewrite Ep. apply rfc_cond_put; [|reflexivity|reflexivity].
+    apply rfc_cond_put; [|reflexivity|].
+    - apply rfc_cond_put; [exact R1|reflexivity|intros _; apply dec_rfc_value].
+    - intros B. apply andb_true_iff in B as [_ B]. apply negb_true_iff in B. rewrite B in Hua. exact Hua. }
+  assert (TE1 : get_ci TRANSFER_ENCODING h1 = get_ci TRANSFER_ENCODING h0).
+  { unfold h1. destruct (ra_ctype a); [|reflexivity]. now rewrite get_ci_put_ci. }
+  assert (CL1 : get_ci CONTENT_LENGTH h1 = get_ci CONTENT_LENGTH h0).
+  { unfold h1. destruct (ra_ctype a); [|reflexivity]. now rewrite get_ci_put_ci. }
+  assert (TEf : get_ci TRANSFER_ENCODING hs = get_ci TRANSFER_ENCODING h0).
+  { rewrite Ep, !get_ci_cond_put.
+    change (bytes_eqb TRANSFER_ENCODING (lower H_CONNECTION)) with false.
+    change (bytes_eqb TRANSFER_ENCODING (lower H_USER_AGENT)) with false.
+    change (bytes_eqb TRANSFER_ENCODING (lower H_CONTENT_LENGTH)) with false.
+    rewrite !andb_false_r. exact TE1. }
+  assert (CLf : get_ci CONTENT_LENGTH hs =
+                (if truthy (ra_body a) && negb (has_key_ci TRANSFER_ENCODING h0)
+                 then Some (if truthy (ra_body a) then dec_of_N (len (or_empty (ra_body a))) else [48])
+                 else get_ci CONTENT_LENGTH h0)).
+  { rewrite Ep, !get_ci_cond_put.
+    change (bytes_eqb CONTENT_LENGTH (lower H_CONNECTION)) with false.
+    change (bytes_eqb CONTENT_LENGTH (lower H_USER_AGENT)) with false.
+    change (bytes_eqb CONTENT_LENGTH (lower H_CONTENT_LENGTH)) with true.
+    rewrite !andb_false_r, andb_true_r.
+    rewrite (has_key_ci_get TRANSFER_ENCODING h1), TE1, <- (has_key_ci_get TRANSFER_ENCODING h0).
+    destruct (truthy (ra_body a)) eqn:T; cbn [andb]; [|exact CL1].
+    destruct (has_key_ci TRANSFER_ENCODING h0); cbn [negb]; [exact CL1|reflexivity]. }
+  pose proof (rfc_framing_from_args h0 hs (ra_body a) (truthy (ra_body a)) false true false Hfr Hn TEf CLf
+                ltac:(discriminate) ltac:(discriminate)) as Hframe.
+  destruct (is_token_props _ Hm) as (_ & _ & Msp & Mlf).
+  destruct (vchars_no_sp_lf _ Hurl) as [Usp Ulf]. destruct (is_http_version_chars _ Hver) as [Vlf Vsp].
+  rewrite build_request_wire. fold hs.
+  pose (line := ra_method a ++ SP :: ra_url a ++ SP :: ra_version a).
+  pose (rest := header_lines hs ++ CRLF ++ or_empty (ra_body a)).
+  assert (Er : ra_method a ++ [SP] ++ ra_url a ++ [SP] ++ ra_version a ++ CRLF ++ header_lines hs ++ CRLF ++ or_empty (ra_body a)
+               = line ++ CRLF ++ rest).
+  { unfold line, rest. cbn [app]. repeat (rewrite <- app_assoc || rewrite <- app_comm_cons). reflexivity. }
+  rewrite Er. unfold wf_message.
+  assert (Ll : ~ In LF line).
+  { unfold line. intros Hi. apply in_app_or in Hi as [Hi|[Hi|Hi]]; [now apply Mlf|discriminate Hi|].
+    apply in_app_or in Hi as [Hi|[Hi|Hi]]; [now apply Ulf|discriminate Hi|now apply Vlf]. }
+  rewrite (split_once_crlf_no_lf line rest Ll).
+  unfold rest at 1 2. rewrite parse_fields_lines; [|exact Hr|].
+  2:{ fold rest. unfold rest. rewrite app_length. pose proof (header_lines_length hs). lia. }
+  cbn [is_request]. unfold parse_request_line, line.
+  rewrite (splitn2_three SP _ _ _ Msp Usp). rewrite Hm, Hune, Hurl, Hver. cbn [andb].
+  rewrite (fields_named_nodup L_HOST hs Hn). rewrite Hframe, andb_true_r.
+  rewrite has_key_ci_get in Hhost.
+  destruct (bytes_eqb (ra_version a) HTTP_1_1); destruct (get_ci L_HOST hs); try reflexivity; discriminate Hhost.
 Qed.
